@@ -32,6 +32,7 @@ func c05RestartFn(_ *raterun.Runner) { c05Restarts++ }
 //verif:ghostlog 1
 //verif:timeout 120
 //verif:replace (*$M/internal/raterun.Runner).Restart c05RestartFn
+//verif:deadlock 1
 func VerifC05_TriggeringPhase() {
 	md, td := zz.Int64("maxDuration"), zz.Int64("triggerDuration")
 	zz.Assume(md > int64(20*time.Millisecond))
